@@ -2,6 +2,8 @@
   C13 — Exactly one dead letter per failed delivery, none per success.
 -/
 import Rsactor.Inv.Dead
+import Rsactor.Ties.dead_letter_census
+import Rsactor.Ties.timeout_wrappers_shape
 
 namespace Rsactor.Props.C13
 open Rsactor Rsactor.Model Rsactor.Monitor
@@ -37,5 +39,10 @@ example : ∃ s, run? (init 1 {})
      .grantWake 2, .issue 0 { kind := .tell }] = some s ∧
     s.dead = [(3, .timeout), (2, .actorStopped), (5, .actorStopped)] := by
   refine ⟨_, rfl, ?_⟩; decide
+
+
+/-! ### ties to the source: shape lemmas about the tables regenerated from /repo on every run -/
+-- @tie Rsactor.Ties.dead_letter_census
+-- @tie Rsactor.Ties.timeout_wrappers_shape
 
 end Rsactor.Props.C13
